@@ -226,6 +226,15 @@ fn data_text(rng: &mut Rng) -> String {
     s
 }
 
+/// line number of the k-th line: usually 10, 20, ..; sometimes a boundary of the u64 line-number space
+fn lineno(rng: &mut Rng, k: usize) -> u64 {
+    if rng.chance(1, 6) {
+        *rng.pick(&[0, 1, 63999, 65535, 65536, 4294967295, 4294967296, 1 << 63, u64::MAX - 1, u64::MAX])
+    } else {
+        10 * (k as u64 + 1)
+    }
+}
+
 fn run_case(ctx: &Ctx, index: u64, rep: &mut Report) {
     let mut rng = ctx.rng(index);
     let mut stats = (0u64, 0u64);
@@ -298,7 +307,7 @@ fn run_case(ctx: &Ctx, index: u64, rep: &mut Report) {
         "data" => {
             for _ in 0..BATCH {
                 let n = 1 + rng.usize(3);
-                let lines: Vec<String> = (0..n).map(|k| format!("{} {}", 10 * (k + 1), data_text(&mut rng))).collect();
+                let lines: Vec<String> = (0..n).map(|k| format!("{} {}", lineno(&mut rng, k), data_text(&mut rng))).collect();
                 handle(lines, &[], 0, true, "data", rep, &mut stats);
             }
             rep.evaluations += BATCH - 1;
@@ -306,7 +315,7 @@ fn run_case(ctx: &Ctx, index: u64, rep: &mut Report) {
         "toklines" => {
             for _ in 0..BATCH {
                 let n = 1 + rng.usize(4);
-                let lines: Vec<String> = (0..n).map(|k| format!("{} {}", 10 * (k + 1), toks::join(&toks::random_pieces(&mut rng, 10)))).collect();
+                let lines: Vec<String> = (0..n).map(|k| format!("{} {}", lineno(&mut rng, k), toks::join(&toks::random_pieces(&mut rng, 10)))).collect();
                 handle(lines, &["1".to_string()], 0, true, "toklines", rep, &mut stats);
             }
             rep.evaluations += BATCH - 1;
